@@ -23,6 +23,9 @@ Decided (the part of each algorithm that is data, wiring or encoding, for every 
   absorb / block-run  which block is compressed when, and that BLAKE2's final flag goes to the last block only (shared with C02)
              SHA-512 (impl512::reference), SHA-1 and RIPEMD-160 block functions over 1 and 2 blocks equal FIPS 180-4 / the
              RIPEMD-160 specification as value graphs
+  shape-eval block-run drivers (SHA-1, RIPEMD-160, SHA-256 portable / SSE4.1 / AVX, SHA-512) with opaque compression leaves:
+             every block of a run of 0..2 widest batches + tails (and around every length constant the code names) is
+             compressed exactly once, in order, chained through the state; sponge absorb loop for every offset
 Not decided: Keccak-f[1600] as a function."""
 import re
 
